@@ -683,32 +683,34 @@ var subFacts = map[string]func(p *Prog) string{
 		info := fi.Pkg.TypesInfo
 		bad := ""
 		n := 0
-		walkStack(fi.Decl, func(nn ast.Node, stack []ast.Node) bool {
-			call, ok := nn.(*ast.CallExpr)
-			if !ok {
-				return true
-			}
-			fn, ok := calleeObj(info, call).(*types.Func)
-			if !ok || recvTypeName(fn) != "Index" || fn.Name() != "Register" {
-				return true
-			}
-			n++
-			okGuard := false
-			for _, g := range guardsOf(stack, call) {
-				if g.Cond == nil || !mentionsField(info, g.Cond, modPath+"/method", "Parameters", "UpdateTarget") {
-					continue
+		for _, rf := range p.Region("generator.setupGenerator") {
+			walkStack(rf.Decl, func(nn ast.Node, stack []ast.Node) bool {
+				call, ok := nn.(*ast.CallExpr)
+				if !ok {
+					return true
 				}
-				// either on the not-taken side of `x.UpdateTarget`, or on the taken side of `!x.UpdateTarget`
-				_, negated := ast.Unparen(g.Cond).(*ast.UnaryExpr)
-				if g.Neg != negated {
-					okGuard = true
+				fn, ok := calleeObj(info, call).(*types.Func)
+				if !ok || recvTypeName(fn) != "Index" || fn.Name() != "Register" {
+					return true
 				}
-			}
-			if !okGuard {
-				bad = "setupGenerator registers a method in the exact index without excluding UpdateTarget methods"
-			}
-			return true
-		})
+				n++
+				okGuard := false
+				for _, g := range guardsOf(stack, call) {
+					if g.Cond == nil || !mentionsField(info, g.Cond, modPath+"/method", "Parameters", "UpdateTarget") {
+						continue
+					}
+					// either on the not-taken side of `x.UpdateTarget`, or on the taken side of `!x.UpdateTarget`
+					_, negated := ast.Unparen(g.Cond).(*ast.UnaryExpr)
+					if g.Neg != negated {
+						okGuard = true
+					}
+				}
+				if !okGuard {
+					bad = "setupGenerator registers a method in the exact index without excluding UpdateTarget methods"
+				}
+				return true
+			})
+		}
 		if n == 0 {
 			return "no Index.Register call in setupGenerator"
 		}
